@@ -67,14 +67,14 @@ pub fn run(report: &Report, thorough: bool) -> Evidence {
     if crate::par::part_enabled("bfs") {
         // (db, alphabet, depth, english, initial store)
         let store = r#"{"as":"আশ","a":"া","e":"ে"}"#;
-        let d = if thorough { 8 } else { 7 };
+        let d = if thorough { 8 } else { 6 };
         let mut plans: Vec<(String, &str, usize, bool, Option<&str>)> = vec![
             (tiny.clone(), "aser", d, false, None),
             (tiny.clone(), "aser", d - 1, true, Some(store)),
             (tiny.clone(), "ae:`.", d - 1, true, None),
             (tiny.clone(), "ae:`.", d - 1, false, Some(store)),
         ];
-        plans.push((real_db(), "aser", if thorough { 6 } else { 5 }, true, Some(store)));
+        plans.push((real_db(), "aser", if thorough { 6 } else { 4 }, true, Some(store)));
         let mut total = HistStats::default();
         let ref_runs = AtomicU64::new(0);
         for (pi, (db, alpha, depth, english, init_store)) in plans.iter().enumerate() {
@@ -104,6 +104,7 @@ pub fn run(report: &Report, thorough: bool) -> Evidence {
                     let sel = shown.map(|r| r.sel().min(255) as u8).unwrap_or(0);
                     let mut v: Vec<Ev> = keys.iter().map(|k| if let Ev::Key { code, m, .. } = k { Ev::Key { code: *code, m: *m, sel } } else { k.clone() }).collect();
                     v.push(Ev::Bs);
+                    v.push(Ev::CtrlBs);
                     v.push(Ev::Finish);
                     if let Some(r) = shown {
                         // committing the preselected candidate ends the word without learning
@@ -339,6 +340,113 @@ pub fn run(report: &Report, thorough: bool) -> Evidence {
         );
         transitions += calls.load(Ordering::Relaxed);
         parts.insert("two_contexts_all_merges".into(), json!({"word_pairs": pairs.len(), "max_len_sum": maxsum, "merges": merges_run.load(Ordering::Relaxed), "calls": calls.load(Ordering::Relaxed)}));
+    }
+
+    // ---------------- (4) long warm histories ----------------
+    // One context composes thousands of distinct words in a row (every bundled auto-correct key,
+    // every word of <= 4 letters over {a,s,e,r}); each rendering on the way is compared with the
+    // default execution of the same text. Reaches what a depth-bounded BFS cannot: memo sizes in
+    // the thousands.
+    if crate::par::part_enabled("warm") {
+        let dict = crate::data::Dict::load(&real_db());
+        let mut seq: Vec<String> = dict.autocorrect.keys().filter(|k| k.chars().all(|c| c.is_ascii_lowercase())).cloned().collect();
+        seq.sort();
+        if !thorough {
+            seq.truncate(600);
+        }
+        let letters: Vec<char> = "aser".chars().collect();
+        let mut v = vec![String::new()];
+        let mut i = 0;
+        while i < v.len() {
+            if v[i].len() < 4 {
+                for &c in &letters {
+                    let mut s = v[i].clone();
+                    s.push(c);
+                    v.push(s);
+                }
+            }
+            i += 1;
+        }
+        seq.extend(v.into_iter().filter(|s| s.len() >= 2));
+        for w in ["asgulo", "kothagulo", "amader", "bolte", "manushera", "somoyer", "phulgulo", "deshe"] {
+            seq.push(w.to_string());
+        }
+        // four orders of the same word list, each in its own long-lived context
+        let orders: Vec<Vec<String>> = vec![
+            seq.clone(),
+            seq.iter().rev().cloned().collect(),
+            {
+                let mut s = seq.clone();
+                s.sort_by_key(|w| (w.len(), w.clone()));
+                s
+            },
+            {
+                // interleave the two halves
+                let (a, b) = seq.split_at(seq.len() / 2);
+                a.iter().zip(b.iter()).flat_map(|(x, y)| [x.clone(), y.clone()]).collect()
+            },
+        ];
+        let warm_cmp = AtomicU64::new(0);
+        par_for(
+            orders.len() * 2,
+            1,
+            |w| scratch_xdg(&format!("c05w-{}", w)),
+            |xdg, idx| {
+                let order = &orders[idx / 2];
+                let mut o = Opts::phonetic(&real_db(), xdg);
+                o.english = idx % 2 == 1;
+                crate::drv::clear_user_files(&o);
+                let mut live = Ctx::new(&o).expect("ctx");
+                live.with_pre = false;
+                let mut o2 = o.clone();
+                o2.xdg = format!("{}-twin", xdg);
+                std::fs::create_dir_all(o2.user_dir()).expect("dir");
+                let mut twin = Ctx::new(&o2).expect("ctx");
+                twin.with_pre = false;
+                let files = BTreeMap::new();
+                let mut done: u64 = 0;
+                for w in order {
+                    // default execution: a new method, the word typed directly
+                    let _ = histgraph::fresh(&mut twin, &files);
+                    let mut exp = vec![];
+                    for c in w.chars() {
+                        match twin.ch(c) {
+                            Ok(r) => exp.push(r),
+                            Err(_) => break,
+                        }
+                    }
+                    let mut got = vec![];
+                    for c in w.chars() {
+                        match live.ch(c) {
+                            Ok(r) => got.push(r),
+                            Err(f) => {
+                                report.add(fail_violation("C05", &f, &live.opts, &w.chars().map(Ev::ch).collect::<Vec<_>>()));
+                                break;
+                            }
+                        }
+                    }
+                    let _ = live.apply(&Ev::Finish);
+                    done += 1;
+                    warm_cmp.fetch_add(got.len() as u64, Ordering::Relaxed);
+                    if got != exp {
+                        let k = got.iter().zip(exp.iter()).position(|(a, b)| a != b).unwrap_or(0);
+                        let evs: Vec<Ev> = w.chars().take(k + 1).map(Ev::ch).collect();
+                        report.add(
+                            Violation::new("C05", "history-dependent-suggestion", "history-dependent:warm-context")
+                                .opts(&live.opts)
+                                .events(&evs)
+                                .feat("text", w.clone())
+                                .feat("words_composed_before_in_this_context", done.to_string())
+                                .detail(format!("after {} earlier words in the same context, typing {:?}: rendering {} is {} but {} in a new context (replay shows the new-context behaviour; the warm history is the word list of the check)", done - 1, w, k, got.get(k).map(|r| r.to_json()).unwrap_or_default(), exp.get(k).map(|r| r.to_json()).unwrap_or_default())),
+                        );
+                    }
+                }
+            },
+            |_| (),
+        );
+        compared.fetch_add(warm_cmp.load(Ordering::Relaxed), Ordering::Relaxed);
+        transitions += warm_cmp.load(Ordering::Relaxed) * 2;
+        parts.insert("long_warm_histories".into(), json!({"words_per_history": seq.len(), "orders": orders.len(), "configurations": 2, "renderings_compared": warm_cmp.load(Ordering::Relaxed)}));
     }
 
     let statics = scan_statics();
